@@ -602,6 +602,163 @@ impl Finds {
     }
 }
 
+impl Finds {
+    /// The property for a language drawn at random (`userlang.rs`): a store of that language under a limit that holds all its
+    /// records; every word of every title as the public tokeniser of THAT language (a second object built from the same
+    /// tables) delivers it; derived queries only when that tokeniser maps them back to exactly the intended words.
+    fn user_lang_case(&self, cx: &mut Cx) {
+        let mut twin = Rng(cx.rng.0);
+        let mut ul = crate::userlang::UserLang::random_opts(&mut cx.rng, false);
+        let ul2 = crate::userlang::UserLang::random_opts(&mut twin, false);
+        let desc = ul.desc();
+        let n = cx.rng.range(1, 4);
+        let recs: Vec<Rec> = (0..n).map(|i| (i + 1, ul.text(&mut cx.rng, 4), cx.rng.below(5))).collect();
+        let mut store = Store::new();
+        store.lang = std::mem::replace(&mut ul.lang, Lang::new());
+        store.limit = *cx.rng.pick(&[n, n + 1, 10]);
+        for r in &recs {
+            let rec = Record::new(r.0, &r.1, r.2, &store.lang);
+            store.add(rec);
+        }
+        let lobj = &ul2.lang;
+        cx.count("stores of a language drawn at random");
+        let plain: Vec<char> = cv("abcnostz");
+        let mut judge = |cx: &mut Cx, clause: &str, rec: &Rec, q: &str, info: serde_json::Value| {
+            cx.ctx(format!("{} user-defined language {} recs={:?} q={:?}", clause, desc, recs, q));
+            let got: Vec<usize> = store.search(&tokenize_query(q, &store.lang).to_ref()).into_iter().map(|r| r.id).collect();
+            cx.eval();
+            cx.count("queries judged in stores of a random language");
+            cx.key(hparts(&["userlang", &desc.to_string(), &rec.1, q]));
+            if !got.contains(&rec.0) {
+                cx.fail(clause, json!({"language": "defined by the case through the public Lang API", "tables": desc, "store": recs, "limit": store.limit,
+                    "record": {"id": rec.0, "title": rec.1, "rating": rec.2}, "query": q, "expected_id": rec.0, "got_ids": got, "info": info}));
+                return false;
+            }
+            true
+        };
+        for rec in &recs {
+            let tok = tokenization::tokenize_record(&rec.1, lobj);
+            match self.0 {
+                Which::Prefix => {
+                    for wi in 0..tok.words.len() {
+                        let cs = word_chars(&tok, wi).to_vec();
+                        for plen in 1..=cs.len().min(12) {
+                            if !cs[plen - 1].is_alphanumeric() {
+                                continue;
+                            }
+                            let q = s(&cs[..plen]);
+                            if !oracle::stable(lobj, &q, &[&cs[..plen]]) {
+                                cx.count("skipped_unstable in a random language");
+                                continue;
+                            }
+                            if !judge(cx, "prefix-not-found", rec, &q, json!({"word": s(&cs), "prefix_len": plen})) {
+                                return;
+                            }
+                        }
+                    }
+                }
+                Which::Typo => {
+                    for wi in 0..tok.words.len() {
+                        let cs = word_chars(&tok, wi).to_vec();
+                        let distinct: BTreeSet<char> = cs.iter().cloned().collect();
+                        if !(cs.iter().all(|c| c.is_alphabetic()) && cs.len() >= 5 && distinct.len() >= 3) {
+                            continue;
+                        }
+                        for _ in 0..6 {
+                            let pos = cx.rng.below(cs.len());
+                            let mut e = cs.clone();
+                            let kind = match cx.rng.below(4) {
+                                0 => {
+                                    let c = *cx.rng.pick(&plain);
+                                    if c == e[pos] {
+                                        continue;
+                                    }
+                                    e[pos] = c;
+                                    "substitution"
+                                }
+                                1 => {
+                                    e.insert(pos, *cx.rng.pick(&plain));
+                                    "insertion"
+                                }
+                                2 => {
+                                    e.remove(pos);
+                                    "deletion"
+                                }
+                                _ => {
+                                    if pos + 1 >= e.len() || e[pos] == e[pos + 1] {
+                                        continue;
+                                    }
+                                    e.swap(pos, pos + 1);
+                                    "transposition"
+                                }
+                            };
+                            let q = s(&e);
+                            if !oracle::stable(lobj, &q, &[&e[..]]) {
+                                cx.count("skipped_unstable in a random language");
+                                continue;
+                            }
+                            if !judge(cx, "typo-not-found", rec, &q, json!({"word": s(&cs), "edit": kind, "position": pos})) {
+                                return;
+                            }
+                        }
+                    }
+                }
+                Which::Whole => {
+                    if tok.words.is_empty() {
+                        continue;
+                    }
+                    if !judge(cx, "whole-title-not-found", rec, &rec.1, json!({})) {
+                        return;
+                    }
+                    if tok.words.len() >= 2 {
+                        let f = word_chars(&tok, 0).to_vec();
+                        let l = word_chars(&tok, tok.words.len() - 1).to_vec();
+                        for (a, b) in [(&f, &l), (&l, &f)].iter() {
+                            let q = format!("{} {}", s(a), s(b));
+                            if !oracle::stable(lobj, &q, &[&a[..], &b[..]]) {
+                                cx.count("skipped_unstable in a random language");
+                                continue;
+                            }
+                            if !judge(cx, "two-words-not-found", rec, &q, json!({"words": [s(a), s(b)]})) {
+                                return;
+                            }
+                        }
+                    }
+                }
+                Which::SplitJoin => {
+                    for wi in 0..tok.words.len() {
+                        let cs = word_chars(&tok, wi).to_vec();
+                        if cs.len() < 3 {
+                            continue;
+                        }
+                        for k in 1..cs.len().min(12) {
+                            let q = format!("{} {}", s(&cs[..k]), s(&cs[k..]));
+                            if !oracle::stable(lobj, &q, &[&cs[..k], &cs[k..]]) {
+                                cx.count("skipped_unstable in a random language");
+                                continue;
+                            }
+                            if !judge(cx, "split-not-found", rec, &q, json!({"word": s(&cs), "split_at": k})) {
+                                return;
+                            }
+                        }
+                        if wi + 1 < tok.words.len() && tok.words[wi + 1].slice.0 == tok.words[wi].slice.1 + 1 {
+                            let mut j = cs.clone();
+                            j.extend_from_slice(word_chars(&tok, wi + 1));
+                            let q = s(&j);
+                            let tq = tokenize_query(&q, lobj);
+                            if j.len() >= 3 && tq.words.len() == 1 && tq.words[0].stem == tq.words[0].slice.1 - tq.words[0].slice.0 && oracle::stable(lobj, &q, &[&j[..]]) {
+                                if !judge(cx, "join-not-found", rec, &q, json!({"words": [s(&cs), s(word_chars(&tok, wi + 1))]})) {
+                                    return;
+                                }
+                            }
+                        }
+                    }
+                }
+            }
+        }
+    }
+}
+
 impl Prop for Finds {
     fn id(&self) -> &'static str {
         match self.0 {
@@ -621,10 +778,10 @@ impl Prop for Finds {
     }
     fn streams(&self) -> Vec<Stream> {
         match self.0 {
-            Which::Prefix => vec![Stream::new("gen", 6400, 320000), Stream::new("vocab", NL, NL), Stream::new("corpus", 640, 3285 * 2), Stream::new("big", 16, 160)],
-            Which::Typo => vec![Stream::new("gen", 2400, 48000), Stream::new("vocab", NL, NL), Stream::new("corpus", 480, 3285 * 2), Stream::new("letters", 600, 6000), Stream::new("big", 16, 160)],
-            Which::Whole => vec![Stream::new("gen", 12800, 640000), Stream::new("vocab", NL, NL), Stream::new("corpus", 1600, 3285 * 2), Stream::new("big", 16, 160)],
-            Which::SplitJoin => vec![Stream::new("gen", 6400, 192000), Stream::new("vocab", NL, NL), Stream::new("corpus", 960, 3285 * 2), Stream::new("big", 16, 160)],
+            Which::Prefix => vec![Stream::new("gen", 6400, 320000), Stream::new("vocab", NL, NL), Stream::new("corpus", 640, 3285 * 2), Stream::new("big", 16, 160), Stream::new("userlang", 3000, 150000)],
+            Which::Typo => vec![Stream::new("gen", 2400, 48000), Stream::new("vocab", NL, NL), Stream::new("corpus", 480, 3285 * 2), Stream::new("letters", 600, 6000), Stream::new("big", 16, 160), Stream::new("userlang", 3000, 150000)],
+            Which::Whole => vec![Stream::new("gen", 12800, 640000), Stream::new("vocab", NL, NL), Stream::new("corpus", 1600, 3285 * 2), Stream::new("big", 16, 160), Stream::new("userlang", 3000, 150000)],
+            Which::SplitJoin => vec![Stream::new("gen", 6400, 192000), Stream::new("vocab", NL, NL), Stream::new("corpus", 960, 3285 * 2), Stream::new("big", 16, 160), Stream::new("userlang", 3000, 150000)],
         }
     }
     fn floors(&self) -> Vec<(&'static str, u64, u64)> {
@@ -791,6 +948,7 @@ impl Prop for Finds {
                 cx.count("titles with more than 65 536 distinct grams");
                 self.check_record(cx, &mut st, &json!(format!("3 records; record 2 has {} words of 230 different letters", nwords)), &recs[1], &mut done);
             }
+            "userlang" => self.user_lang_case(cx),
             "big" if idx % 16 == 10 && cx.tier != Tier::Miri => {
                 // a session on one small store: the judged query finds its record, then 65 533 / 65 534 / 65 535 / 65 536 searches
                 // for another record's word follow that share no gram with it (the judged record is left alone for exactly that
